@@ -217,6 +217,8 @@ def run(ctx):
     c02.rule_r7(sfacts, ctx, rule_id="C12.S7")
     c02.rule_r8(sfacts, ctx, rule_id="C12.S8")
     c02.rule_r9(sfacts, ctx, rule_id="C12.S9")
+    c02.rule_r12(sfacts, ctx, rule_id="C12.S10")     # positions off by 2^64 mod capacity after the wrap: every forwarder loses those tags
+    ctx.floor("C12.S10", 3, "same floor as C02.R12")
     for rid, n in (("C12.S5", 1), ("C12.S6", 2), ("C12.S7", 1), ("C12.S8", 1), ("C12.S9", 1)):
         ctx.floor(rid, n, "same floor as C02.R%s" % rid[-1])
     c19.rule_work(fam, ctx, only={"C12.R2"})
